@@ -333,9 +333,13 @@ def run_pipeline(case, driver=None, trace=None):
             n = len(gaps)
             st_ = {"a": 0, "s": 0}
 
-            def arr(gaps=gaps, st_=st_):
+            ends = bool(case.get("finite") and gaps and gaps[-1] > 0)
+
+            def arr(gaps=gaps, st_=st_, ends=ends):
                 st_["a"] += 1
-                return gaps[st_["a"] - 1] if st_["a"] <= len(gaps) else 1e12
+                # a source with a finish time draws nothing once its clock has reached it; were it to draw again, the next
+                # packet would follow a quarter of a second later and be counted as invented
+                return gaps[st_["a"] - 1] if st_["a"] <= len(gaps) else (0.25 if ends else 1e12)
 
             def siz(sizes=sizes, st_=st_):
                 st_["s"] += 1
